@@ -117,7 +117,8 @@ PROPS['C15'] = {
              'reader is modelled as well (Model/JsonRead.lean: white space, every escape of RFC 8259 with surrogate pairs, the number grammar, '
              'no trailing commas, nothing after the value, the 27-character rule for key identifiers, the URL-safe alphabet) and compared with '
              'SlurmFile::from_str on written (compact and pretty) and character-mutated texts; from_str_to_string: the reader model reads the '
-             'writer model\'s text of every well-formed file back as the file; readers_agree_on_written_text. The sequence form serde '
+             'writer model\'s text of every well-formed file back as the file; readers_agree_on_written_text; the pretty form (Model/JsonPretty.lean, byte for '
+             'byte against to_string_pretty) is read back as well (from_str_to_string_pretty). The sequence form serde '
              'derives for the seven derived structs (a JSON array of the fields in declaration order, none left out) is modelled too (tree model and '
              'positional typing of the leaves) and generated. Partial: serde_json\'s recursion limit and the UTF-8 validity of the input are outside the model.',
     'note': 'The serde attribute semantics (default, skip_serializing_if, deny_unknown_fields - absent on BgpsecFilter -, null handling, '
